@@ -11,3 +11,8 @@ Lemma model_constants_are_crate_constants :
   rent 0 = G_RENT_0 /\ rent 1000 = G_RENT_1000 /\ MINT_DECIMALS = G_MINT_DECIMALS /\ G_RELAY_MIN_LAMPORTS = 5001 /\
   G_DIST_FLAG_BITS = [1; 2; 3; 4].
 Proof. repeat split; reflexivity. Qed.
+
+(* the flag bits the harness decodes the state accounts with ([rd paused; rd migrated; contributor blocked; passport paused;
+   passport request-access paused]) are the documented ones *)
+Lemma state_flag_bits_are_crate_constants : G_STATE_FLAG_BITS = [0; 1; 0; 0; 1].
+Proof. reflexivity. Qed.
